@@ -18,7 +18,7 @@ RULE = ("all byte strings of length<=2 enumerated exhaustively x 4 option combos
         "(<=64 bytes) biased to backslash/quote/control/escape look-alikes; non-trivial = input contains a "
         "backslash, quote or control byte; distinct by (bytes, options)")
 ASSUMPTIONS = ["round trip is checked through the public functions only"]
-QUICK_N = 200_000
+QUICK_N = 170_000
 THOROUGH_N = 6_000_000
 
 _special = st.sampled_from([b"\\", b"'", b'"', b"\n", b"\r", b"\t", b"\\n", b"\\x41", b"\\'", b"\\\\", b"\x00",
